@@ -28,3 +28,44 @@ func VerifC05ErrorItem() {
 	verifrt.Observe("failure", isFailure)
 	verifrt.Reach("end")
 }
+
+// VerifC05StubRefetch: a listing names an object by a same-host stub; the
+// follow-up fetch of that object is cut at any byte, refused or never
+// answered: the entry must be an error item (or the complete object).
+func VerifC05StubRefetch() {
+	itemRaw := "HTTP/1.1 200 OK\r\nContent-Type: application/activity+json\r\n\r\n{\"type\":\"Note\",\"id\":\"https://" + jtp.VHostA + "/item\",\"content\":\"<p>whole</p>\"}"
+	w := jtp.NewWorld()
+	w.Routes[jtp.VHostA+"/coll"] = c09Doc(`{"type":"Collection","id":"https://` + jtp.VHostA + `/coll","items":[{"id":"https://` + jtp.VHostA + `/item","type":"Note"}]}`)
+	r := jtp.NewResp(itemRaw)
+	complete := false
+	switch verifrt.Choice("fault", 4) {
+	case 0:
+		r.CutAt = verifrt.Int("cut", 0, len(itemRaw))
+		complete = r.CutAt >= len(itemRaw)
+	case 1:
+		r.NoAnswer = true
+	case 2:
+		r = jtp.NewResp("HTTP/1.1 500 Oops\r\n\r\n")
+	default:
+		complete = true
+	}
+	w.Routes[jtp.VHostA+"/item"] = r
+	jtp.VerifUseWorld(w, 4)
+	c, isColl := New("https://"+jtp.VHostA+"/coll", nil).(*Collection)
+	verifrt.Assert(isColl, "collection-loads")
+	if !isColl {
+		return
+	}
+	items, _, _ := c.Harvest(1, 0)
+	verifrt.Assert(len(items) == 1, "entry-appears")
+	if len(items) == 1 {
+		post, isPost := items[0].(*Post)
+		_, isFailure := items[0].(*Failure)
+		verifrt.Assert(isPost || isFailure, "an-item-or-an-error-item")
+		verifrt.Assert(isPost == complete, "faulted-refetch-becomes-an-error-item")
+		if isPost {
+			verifrt.Assert(post.bodyErr == nil, "a-genuine-item-is-the-complete-object")
+		}
+	}
+	verifrt.Reach("end")
+}
